@@ -559,10 +559,55 @@ def x1_shadowing_names(ctx: Ctx):
             bad = f'target `{txt}` binds {want}, the helper reports {names}'
     ctx.check(bad is None, ITER, fn, '_binding_names', 'every name a target binds is reported, through nested tuple patterns, underscores excluded',
               (bad or '') + ': an inner comprehension re-binding a substituted name through a nested pattern would have its own variable replaced by the outer indexed read')
+    # the scopes of a comprehension `[E for x in I0 for y in I1]`: I0 is evaluated in the enclosing scope, I1 sees x only, E
+    # sees both.  SubstNames._visit_list_comp is evaluated, from its source, with x, y and an unrelated z all substituted.
     sn = ctx.fn(ITER, 'SubstNames._visit_list_comp')
-    t = norm(sn, 4000)
-    ok = 'for name in _binding_names(target): if name in self._subst: shadowed[name] = self._subst.pop(name)' in t and 'finally: self._subst.update(shadowed)' in t
-    ctx.check(ok, ITER, sn, 'SubstNames._visit_list_comp', 'a comprehension disables the substitution of every name its targets bind, and restores it afterwards', 'changed')
+    smeths = {n: f for n, (_, _, f) in ctx.repo.methods(ITER, 'SubstNames', inherited=False).items()}
+    x, y, z = name('x'), name('y'), name('z')
+
+    def var(n):
+        return Obj('Var', name=n)
+    rows = []
+    for i0, i1, elt in ((x, x, x), (y, y, y), (z, z, z)):
+        comp = Obj('ListComp', targets=[x, y], iterables=[var(i0), var(i1)], elt=var(elt), loc=None)
+        me = Obj('SubstNames', _subst={x: 'X', y: 'Y', z: 'Z'})
+        it = Interp(funcs, smeths, self_obj=me, is_a=lambda k, c: k == c)
+
+        def visit(e, c, it=it):
+            return it.call_function(smeths['_visit_var'], [e, c], bound_self=True) if isinstance(e, Obj) and e.kind == 'Var' else e
+        it.overrides.update({'self._visit_expr': visit, 'self._visit_binding': lambda b, c: b, 'ListComp': lambda t, i, e, loc: (i, e),
+                             'super()._visit_var': lambda e, c: e, 'super()._visit_list_comp': lambda e, c: ([visit(v, c) for v in e.fields['iterables']], visit(e.fields['elt'], c))})
+        (g0, g1), ge = it.call_function(sn, [comp, None], bound_self=True)
+        rows.append((i0.fields['base'], g0, g1, ge))
+        restored = me.fields['_subst'] == {x: 'X', y: 'Y', z: 'Z'}
+        ctx.check(restored, ITER, sn, 'SubstNames._visit_list_comp', 'the shadowed substitutions are restored after the comprehension', 'a substitution stays switched off after a nested comprehension')
+    is_sub = lambda v: isinstance(v, str)  # noqa: E731
+    got = {n: (is_sub(a), is_sub(b), is_sub(c)) for n, a, b, c in rows}
+    want = {'x': (True, False, False), 'y': (True, True, False), 'z': (True, True, True)}
+    ctx.check(got == want, ITER, sn, 'SubstNames._visit_list_comp', 'substitution follows the scopes of the stages: first iterable outer, a later iterable sees earlier targets only, the element sees all',
+              f'(first iterable, second iterable, element) substituted: {got}, scopes give {want}: `[[x * 2 for x in x] for i, x in enumerate(xss)]` iterates over the outer x')
+    # a stage that re-binds what an earlier stage eliminated (or what its inlined reads use) stops the rewrite
+    sr = funcs.get('stage_rebinds')
+    if sr is None:
+        ctx.bad(ITER, None, 'stage_rebinds', 'a later stage re-binding an eliminated name', 'helper not found')
+    else:
+        xs, i_ = name('xs'), name('i')
+        ref = Obj('ListRef', value=var(xs), index=var(i_))
+        reads = lambda exprs: {v.fields['name'] for e in exprs for v in ([e.fields['value'], e.fields['index']] if e.kind == 'ListRef' else [e])}  # noqa: E731
+        for label, target, want_stop in (('the eliminated target', x, True), ('the index of the inlined read', i_, True), ('the source of the inlined read', xs, True),
+                                         ('through a nested pattern', tup(z, tup(i_, z)), True), ('an unrelated name', z, False), ('nothing', under, False)):
+            got_stop = Interp(funcs, overrides={'names_read': reads}).call_function(sr, [{x: ref}, target])
+            ctx.check(bool(got_stop) == want_stop, ITER, sr, 'stage_rebinds', f'a later stage binding {label}: {"the comprehension is left alone" if want_stop else "no obstacle"}',
+                      f'answers {got_stop}: `[x for i, x in enumerate(xs) for x in ys]` is rewritten to read xs[i] where the inner x was meant')
+    for rel, cls_ in ((ZIP, '_ZipElimInstance'), (ENUM, '_EnumerateElimInstance')):
+        f = ctx.fn(rel, f'{cls_}._visit_list_comp')
+        loops = [s for s in walk_no_nested(f) if isinstance(s, ast.For)]
+        first = loops[0].body[0] if loops else None
+        ok = isinstance(first, ast.If) and 'stage_rebinds(subst, target)' in norm(first.test) and isinstance(first.body[-1], ast.Return) and norm(first.body[-1].value) == 'super()._visit_list_comp(e, ctx)'
+        ctx.check(ok, rel, f, f'{cls_}._visit_list_comp', 'each stage is tested for re-binding before anything of it is rewritten; a hit leaves the whole comprehension as it was', 'guard missing or late')
+    es = ctx.fn(ENUM, '_EnumerateElimInstance._rewrite_comp_stage')
+    ok = any(isinstance(s, ast.If) and norm(s.test) == 'idx in names_read(list(plan.args))' and isinstance(s.body[-1], ast.Return) and norm(s.body[-1].value) == 'None' for s in walk_no_nested(es))
+    ctx.check(ok, ENUM, es, '_EnumerateElimInstance._rewrite_comp_stage', 'an index named like a source leaves the stage alone', '`[x for i, x in enumerate(i)]` becomes `[i[i] for i in range(len(i))]`')
     sv = ctx.fn(ITER, 'SubstNames._visit_var')
     ctx.check('replacement = self._subst.get(e.name)' in norm(sv, 2000), ITER, sv, 'SubstNames._visit_var', 'a variable is replaced only through the substitution map', 'changed')
 
@@ -584,6 +629,13 @@ RULES = [
 from ..selftest import Mutant  # noqa: E402
 
 MUTANTS = [
+    Mutant('all-targets-shadow-every-iterable', ITER, "                iterables.append(self._visit_expr(iterable, ctx))\n                for name in _binding_names(target):\n                    if name in self._subst:\n                        shadowed[name] = self._subst.pop(name)\n",
+           "                for name in _binding_names(target):\n                    if name in self._subst:\n                        shadowed[name] = self._subst.pop(name)\n                iterables.append(self._visit_expr(iterable, ctx))\n", 'C08.X1',
+           'finding F90 before its repair: the first iterable of a nested comprehension loses the substitution'),
+    Mutant('later-stage-may-rebind-the-index', ITER, "    return bool(bound & (set(subst) | names_read(list(subst.values()))))", "    return bool(bound & set(subst))", 'C08.X1'),
+    Mutant('zip-stage-guard-dropped', ZIP, "            if subst and stage_rebinds(subst, target):\n", "            if False:\n", 'C08.X1',
+           'finding F90 before its repair: [a for a, b in zip(xs, ys) for a in ys] reads xs'),
+    Mutant('index-named-like-its-source', ENUM, "        if idx in names_read(list(plan.args)):\n", "        if False:\n", 'C08.X1'),
     Mutant('split-factor-variable-read-live', SPLIT, "            f = self.gensym.refresh(self.temp_id)\n            n = self.gensym.refresh(self.temp_id)\n            emitted.append(self._dynamic_prelude(t, f, n, factor, [\n                AssertStmt(",
            "            f = factor.name if isinstance(factor, Var) else self.gensym.refresh(self.temp_id)\n            n = self.gensym.refresh(self.temp_id)\n            emitted.append(self._dynamic_prelude(t, f, n, factor, [\n                AssertStmt(", 'C08.F4',
            'seeded change C08c: a body that assigns the factor variable changes the chunking under way'),
